@@ -215,7 +215,7 @@ class Interp:
             return
         if k == "PWild":
             return
-        if k in ("PTuple", "PSlice") and isinstance(v, (list, tuple)) and len(pat["elems"]) == len(v):
+        if k in ("PTuple", "PSlice") and isinstance(v, (list, tuple)) and len(pat.get("elems", [])) == len(v):
             for p, x in zip(pat["elems"], v):
                 self.bind(p, x)
             return
